@@ -103,17 +103,19 @@ LedObj0(o) == [objs |-> o, bad |-> <<>>]
 BadO(L, why, p) == [L EXCEPT !.bad = IF Len(@) < 4 THEN Append(@, <<why, p>>) ELSE @]
 Known(L, id) == id \in DOMAIN L.objs
 \* a non relocatable object may never be found at another address than the one it was constructed at
-AddrOK(L, id, tok) == Cat # "NTR" \/ L.objs[id] = tok
+\* (token 0: address not tracked, after a call evaluated in batch mode)
+AddrOK(L, id, tok) == Cat # "NTR" \/ L.objs[id] = tok \/ L.objs[id] = 0
+Occupied(L, tok) == \E j \in DOMAIN L.objs : L.objs[j] = tok
 ApplyPrim(L, p) ==
   LET kind == p[1] id == p[2] tok == p[3] sid == p[4] stok == p[5] IN
   CASE kind = "ctor" ->
          IF Known(L, id) THEN BadO(L, "ctor-id-reused", p)
-         ELSE IF Cat = "NTR" /\ \E j \in DOMAIN L.objs : L.objs[j] = tok THEN BadO(L, "ctor-over-live-object", p)
+         ELSE IF Cat = "NTR" /\ Occupied(L, tok) THEN BadO(L, "ctor-over-live-object", p)
          ELSE [L EXCEPT !.objs = Put(@, id, tok)]
     [] kind \in {"cctor", "mctor"} ->
          IF ~Known(L, sid) THEN BadO([L EXCEPT !.objs = Put(@, id, tok)], "read-outside-lifetime", p)
          ELSE IF ~AddrOK(L, sid, stok) THEN BadO([L EXCEPT !.objs = Put(@, id, tok)], "source-moved-by-bytes", p)
-         ELSE IF Cat = "NTR" /\ \E j \in DOMAIN L.objs : L.objs[j] = tok THEN BadO(L, "ctor-over-live-object", p)
+         ELSE IF Cat = "NTR" /\ Occupied(L, tok) THEN BadO(L, "ctor-over-live-object", p)
          ELSE [L EXCEPT !.objs = Put(Put(@, sid, stok), id, tok)]
     [] kind \in {"casg", "masg"} ->
          IF ~Known(L, id) THEN BadO(L, "assign-outside-lifetime", p)
@@ -129,6 +131,32 @@ ApplyPrim(L, p) ==
     [] kind = "badself" -> BadO(L, "self-pointer-broken-by-byte-copy", p)
     [] kind = "badread" -> BadO(L, "single-pass-range-read-twice", p)
     [] OTHER -> BadO(L, "unknown-event", p)
+
+(* Batch evaluation of the same rules for calls with very many life-cycle events (a vector of 250 elements being     *)
+(* constructed or destroyed): the events are classified with set comprehensions instead of being folded one by one, *)
+(* which loses only the order of events WITHIN the call (ids are never reused, so creation / destruction counts and *)
+(* membership are still exact) and the per-object address (re-synchronised from the next observation).              *)
+BatchAt == 32
+BatchLedger(o, prims) ==
+  LET n == Len(prims)
+      ctorI == {i \in 1..n : prims[i][1] \in {"ctor", "cctor", "mctor"}}
+      dtorI == {i \in 1..n : prims[i][1] = "dtor"}
+      ctorIds == {prims[i][2] : i \in ctorI}
+      dtorIds == {prims[i][2] : i \in dtorI}
+      live0 == DOMAIN o
+      reach == live0 \cup ctorIds
+      bad ==
+        IF Cardinality(ctorIds) # Cardinality(ctorI) \/ ctorIds \cap live0 # {} THEN <<<<"ctor-id-reused", <<>>>>>>
+        ELSE IF Cardinality(dtorIds) # Cardinality(dtorI) \/ ~(dtorIds \subseteq reach) THEN <<<<"destroyed-twice-or-never-alive", <<>>>>>>
+        ELSE IF \E i \in 1..n : prims[i][1] \in {"cctor", "mctor", "casg", "masg"} /\ prims[i][4] \notin reach
+             THEN <<<<"read-outside-lifetime", <<>>>>>>
+        ELSE IF \E i \in 1..n : prims[i][1] \in {"casg", "masg", "masg_self_mf"} /\ prims[i][2] \notin reach
+             THEN <<<<"assign-outside-lifetime", <<>>>>>>
+        ELSE IF \E i \in 1..n : prims[i][1] = "masg" /\ prims[i][2] = prims[i][4] THEN <<<<"self-move-assignment", <<>>>>>>
+        ELSE IF \E i \in 1..n : prims[i][1] = "badself" THEN <<<<"self-pointer-broken-by-byte-copy", <<>>>>>>
+        ELSE IF \E i \in 1..n : prims[i][1] = "badread" THEN <<<<"single-pass-range-read-twice", <<>>>>>>
+        ELSE <<>>
+  IN [objs |-> [id \in reach \ dtorIds |-> 0], bad |-> bad]
 
 (* C06 ledger.  a = <<kind, tok1, tok2, n1, n2, live>>  (sizes in bytes) *)
 LedBlk0(b) == [blocks |-> b, bad |-> <<>>, nullDealloc |-> 0]
@@ -223,10 +251,15 @@ TOp ==
            ELSE IF ~ShapeOK THEN "size()/empty() inconsistent with the elements"
                 ELSE IF ~ValsAs(exp.st) /\ ~AssignInputPartial THEN "contents differ from std::vector"
                 ELSE IF r # exp.ret THEN "return value / exception differs from std::vector"
+                \* C08: a limit error leaves the capacity as it was (a single pass range is only found to be too long
+                \* while it is consumed, after the capacity may legitimately have grown)
+                ELSE IF exp.ret.k = "exc" /\ lb.it # "input" /\ lb.op # "swap2" /\
+                        \E x \in exs : st[x].ex /\ ~IsRef(x) /\ obs[x].cap # st[x].cap
+                     THEN "capacity changed by a call that failed with a limit error"
                 ELSE ""
          owner == ValueOwner(lb, exp, r) \cup (IF \E x \in Parts(lb) : gh[x].reloc THEN {"C14"} ELSE {})
          \* ---- C02
-         L2 == FoldLeft(ApplyPrim, LedObj0(objs), ev.prims)
+         L2 == IF Len(ev.prims) > BatchAt THEN BatchLedger(objs, ev.prims) ELSE FoldLeft(ApplyPrim, LedObj0(objs), ev.prims)
          visIds == UNION {SeqToSet(obs[x].ids) : x \in exs}
          nVis == FoldLeft(LAMBDA a, x : a + (IF obs[x].ex THEN obs[x].size ELSE 0), 0, [i \in 1..K |-> i])
          c02Fail ==
@@ -237,7 +270,8 @@ TOp ==
            ELSE IF DOMAIN L2.objs # visIds
                 THEN IF visIds \ DOMAIN L2.objs # {} THEN "visible element is not alive"
                      ELSE "element object leaked (alive but owned by no container)"
-           ELSE IF Cat = "NTR" /\ \E x \in exs : \E i \in 1..obs[x].size : L2.objs[obs[x].ids[i]] # obs[x].toks[i]
+           ELSE IF Cat = "NTR" /\ \E x \in exs : \E i \in 1..obs[x].size :
+                                     L2.objs[obs[x].ids[i]] # 0 /\ L2.objs[obs[x].ids[i]] # obs[x].toks[i]
                 THEN "non relocatable element found at another address (moved by bytes)"
            ELSE ""
          objs2 == IF Cat = "TC" THEN <<>>
@@ -292,14 +326,14 @@ TOp ==
            IF \E x \in exs : ~(obs[x].size <= obs[x].cap /\ obs[x].cap <= obs[x].maxsz) THEN "size <= capacity <= max_size violated"
            ELSE IF ~exempt /\ \E x \in exs : st[x].ex /\ obs[x].cap < st[x].cap THEN "capacity decreased"
            ELSE IF lb.op \in {"reserve", "reserveBig"} /\ r.k = "none" /\ obs[c].cap < lb.n THEN "capacity < n after reserve(n)"
-           ELSE IF ~exempt /\ ~faulted /\ fits /\ st[c].ex /\ c \in exs /\ ~IsRef(c) /\
+           ELSE IF ~exempt /\ ~faulted /\ fits /\ r.k # "exc" /\ st[c].ex /\ c \in exs /\ ~IsRef(c) /\
                    (Len(ev.allocs) > 0 \/ obs[c].buf # pre.buf)
                 THEN "reallocation although the resulting size fits the capacity"
-           ELSE IF ~exempt /\ ~faulted /\ fits /\ st[c].ex /\ c \in exs /\
+           ELSE IF ~exempt /\ ~faulted /\ fits /\ r.k # "exc" /\ st[c].ex /\ c \in exs /\
                    \E i \in 1..Min(pfx, Min(Len(pre.toks), Len(obs[c].toks))) :
                       pre.toks[i] # obs[c].toks[i] \/ (Cat # "TC" /\ pre.ids[i] # obs[c].ids[i])
                 THEN "element before the insertion / erasure point changed address or identity"
-           ELSE IF ~exempt /\ ~faulted /\ fits /\ st[c].ex /\ c \in exs /\ touched(stableIds)
+           ELSE IF ~exempt /\ ~faulted /\ fits /\ r.k # "exc" /\ st[c].ex /\ c \in exs /\ touched(stableIds)
                 THEN "element before the insertion / erasure point was assigned, moved or destroyed"
            ELSE IF moveFromHeap /\ ~IsRef(c) /\ ~faulted /\
                    (obs[c].buf # last[lb.d].buf \/ obs[c].toks # last[lb.d].toks \/ obs[c].ids # last[lb.d].ids
